@@ -8,7 +8,7 @@ CONSTANTS
   MaxSteps = 6
   MaxPend = 2
   Kinds = {"do","loop","forin","fn","pcall","co"}
-  Handlers = {"ok","raise","raisetbc","nil","nometa","lost"}
+  Handlers = {"ok","raise","raisetbc","nometa","lost"}
   ViewHist = 0
   ErrKinds = {"str","tbl"}
   XHandlers = {}
